@@ -30,8 +30,10 @@ import (
 
 	"github.com/emersion/go-imap"
 	"github.com/emersion/go-imap/backend"
+	"github.com/emersion/go-message/textproto"
 	"github.com/emersion/go-smtp"
 	_ "github.com/foxcpp/maddy"
+	"github.com/foxcpp/maddy/framework/buffer"
 	"github.com/foxcpp/maddy/framework/config"
 	"github.com/foxcpp/maddy/framework/log"
 	"github.com/foxcpp/maddy/framework/module"
@@ -376,6 +378,7 @@ type snapshot struct {
 	Mboxes []mboxRec `json:"mboxes"`
 	Msgs   []msgRec  `json:"msgs"`
 	Nuv    int       `json:"nuv"`
+	Nblob  int       `json:"nblob"`
 }
 
 // snapshot reads the whole state back through the module APIs (fresh module instances every time:
@@ -441,15 +444,9 @@ func (e *env) snapshot() (*snapshot, error) {
 	closeTable(pt)
 
 	// --- the storage
-	sm, err := imapsql.New("storage.imapsql", "verif_mailboxes", nil, nil)
+	st, err := e.openStorage()
 	if err != nil {
 		return nil, err
-	}
-	st := sm.(*imapsql.Storage)
-	st.Log = log.Logger{Name: "imapsql", Out: log.NopOutput{}}
-	if err := st.Init(config.NewMap(nil, node("storage.imapsql", nil,
-		node("driver", []string{"sqlite3"}), node("dsn", []string{e.imapDB}), node("msg_store", []string{"fs", e.blobs})))); err != nil {
-		return nil, fmt.Errorf("imapsql init: %w", err)
 	}
 	defer st.Close()
 	accts, err := st.ListIMAPAccts()
@@ -523,8 +520,67 @@ func (e *env) snapshot() (*snapshot, error) {
 		}
 		u.Logout()
 	}
-	s.Nuv = len(e.uv)
+	s.Nuv = 0
+	s.Nblob = countFiles(e.blobs)
 	return s, nil
+}
+
+func countFiles(dir string) int {
+	n := 0
+	filepath.Walk(dir, func(_ string, fi os.FileInfo, err error) error {
+		if err == nil && fi.Mode().IsRegular() {
+			n++
+		}
+		return nil
+	})
+	return n
+}
+
+func (e *env) openStorage() (*imapsql.Storage, error) {
+	sm, err := imapsql.New("storage.imapsql", "verif_mailboxes", nil, nil)
+	if err != nil {
+		return nil, err
+	}
+	st := sm.(*imapsql.Storage)
+	st.Log = log.Logger{Name: "imapsql", Out: log.NopOutput{}}
+	if err := st.Init(config.NewMap(nil, node("storage.imapsql", nil,
+		node("driver", []string{"sqlite3"}), node("dsn", []string{e.imapDB}), node("msg_store", []string{"fs", e.blobs})))); err != nil {
+		return nil, fmt.Errorf("imapsql init: %w", err)
+	}
+	return st, nil
+}
+
+// deliver hands one message for RCPT TO:<rcpt> to the storage the way the SMTP pipeline does
+// (module.DeliveryTarget: Start / AddRcpt / Body / Commit).
+func (e *env) deliver(rcpt, body string) (bool, string, error) {
+	st, err := e.openStorage()
+	if err != nil {
+		return false, "", err
+	}
+	defer st.Close()
+	ctx := context.Background()
+	d, err := st.Start(ctx, &module.MsgMetadata{ID: body, OriginalFrom: "sender@example.org"}, "sender@example.org")
+	if err != nil {
+		return false, "", fmt.Errorf("delivery start: %w", err)
+	}
+	if err := d.AddRcpt(ctx, rcpt, smtp.RcptOptions{}); err != nil {
+		d.Abort(ctx)
+		return false, err.Error(), nil
+	}
+	raw := message(body)
+	i := strings.Index(raw, "\r\n\r\n")
+	hdr, err := textproto.ReadHeader(bufio.NewReader(strings.NewReader(raw[:i+4])))
+	if err != nil {
+		return false, "", err
+	}
+	if err := d.Body(ctx, hdr, buffer.MemoryBuffer{Slice: []byte(raw[i+4:])}); err != nil {
+		d.Abort(ctx)
+		return false, err.Error(), nil
+	}
+	if err := d.Commit(ctx); err != nil {
+		return false, err.Error(), nil
+	}
+	return true, "", nil
 }
 
 // closeTable closes the table module inside the pass_table instance (the field is private and
@@ -660,8 +716,23 @@ func runBehaviour(t *testing.T, b Behaviour, w io.Writer) {
 	}
 	tr.Emit("Cfg", vtrace.Ev{"preset": b.Preset, "snap": s0})
 	for i, c := range b.Hist {
-		args, stdin := argv(c, b.Stdin)
-		r := e.run(t, args, stdin)
+		var args []string
+		var r result
+		if c.K == "Deliver" {
+			ok, msg, err := e.deliver(spellText[c.Sp], c.Body)
+			if err != nil {
+				t.Fatalf("behaviour %d step %d: delivery: %v", b.ID, i+1, err)
+			}
+			args = []string{"(delivery)", "RCPT TO:<" + spellText[c.Sp] + ">"}
+			r = result{failed: !ok, stderr: msg}
+			if !ok {
+				r.rc = 1 // not an exit status: a refused recipient (ez = FALSE in the model)
+			}
+		} else {
+			var stdin string
+			args, stdin = argv(c, b.Stdin)
+			r = e.run(t, args, stdin)
+		}
 		snap, err := e.snapshot()
 		if err != nil {
 			t.Fatalf("behaviour %d step %d (%v): snapshot: %v\nstderr: %s", b.ID, i+1, args, err, r.stderr)
